@@ -270,6 +270,35 @@ func runC02(c *Ctx) {
 		c.Check("consensus/ucon.NewVoteDB#replays-"+vtNames[k], newDB.Pos(), ok, ifelse(ok, "persisted record(s) replayed on start", "votes of kind "+vtNames[k]+" are persisted (vote is called with it in "+kinds[k]+") but not replayed on start: after a restart in the same round/index the validator signs that kind again"))
 	}
 
+	// the record key binds signer, vote kind and record index; restore and persist use the same key function
+	atk := w.Fn(uconPkg, "", "AddrTypeKey")
+	c.sawFunc(fname(atk))
+	var unbound []string
+	for _, p := range atk.Params {
+		if !influences(atk, p) {
+			unbound = append(unbound, p.Name())
+		}
+	}
+	c.Check(fname(atk)+"#key-binds-all-inputs", atk.Pos(), len(unbound) == 0, ifelse(len(unbound) == 0, "address, vote kind and index all flow into the database key", "the vote-record key ignores "+strings.Join(unbound, ", ")+": records of different kinds / the two next-index records overwrite each other and a restart forgets a vote"))
+	readVDfn := w.Fn(uconPkg, "", "ReadVoteData")
+	usesKeyFn := len(callsTo(readVDfn, atk.Object().(*types.Func))) == 1 && len(callsTo(upd, atk.Object().(*types.Func))) == 1
+	c.Check("consensus/ucon#one-record-key-function", atk.Pos(), usesKeyFn, ifelse(usesKeyFn, "UpdateVoteData and ReadVoteData both build the key with AddrTypeKey", "the record is written and read back under differently built keys"))
+	// the index persisted for a repeated kind is mark+1 in the same context
+	idxOK := false
+	for _, ci := range callsTo(upd, atk.Object().(*types.Func)) {
+		if derivesFrom(callArgs(ci)[2], func(v ssa.Value) bool {
+			lk, ok := v.(*ssa.Lookup)
+			if !ok {
+				return false
+			}
+			f, _ := loadedField(lk.X)
+			return f == markF
+		}) {
+			idxOK = true
+		}
+	}
+	c.Check(fname(upd)+"#record-index-from-mark", upd.Pos(), idxOK, ifelse(idxOK, "the record index derives from the mark of this kind", "the record index no longer derives from the number of votes of this kind already cast: the second next-index vote overwrites the first record"))
+
 	// ------------------------------------------------------------ S4
 	c.Rule("C02.S4", "ALWAYS-WITH", "in every function of VoteDB (and the restore closure) a reset of the mark table is accompanied on the same paths by assignments of round and roundIndex: the three fields describe one (round, index)")
 	c.Min(3)
@@ -340,6 +369,7 @@ func c02Variants() []Variant {
 		{Name: "sign-in-commit", File: "consensus/ucon/voter.go", Old: "func (v *Voter) commit(blockHash, priority common.Hash) {", New: "func (v *Voter) commit(blockHash, priority common.Hash) {\n	v.blsMgr.SignVote(Precommit, &SingleVote{}, blockHash.Bytes())", Rule: "C02.S2", Construct: "commit#calls-SignVote"},
 		{Name: "no-certificate-replay", File: "consensus/ucon/vote_cache.go", Old: "	certificate := ReadVoteData(v.db, v.addr, Certificate, 1)\n	updateFn(certificate)\n", New: "", Rule: "C02.S3", Construct: "replays-Certificate"},
 		{Name: "restore-without-round", File: "consensus/ucon/vote_cache.go", Old: "			v.round = vote.Round\n			v.roundIndex = vote.RoundIndex\n			v.mark = make(map[VoteType]uint8)", New: "			v.roundIndex = vote.RoundIndex\n			v.mark = make(map[VoteType]uint8)", Rule: "C02.S4", Construct: "NewVoteDB$1#mark-reset"},
+		{Name: "key-without-index", File: "consensus/ucon/vote_cache.go", Old: "append(int8ToBytes(uint8(voteType)), int8ToBytes(index)...)...)...)", New: "int8ToBytes(uint8(voteType))...)...)", Rule: "C02.S3", Construct: "key-binds-all-inputs"},
 		{Name: "latch-without-vote", File: "consensus/ucon/voter.go", Old: "			err := v.vote(Precommit, blockHash, priority)\n			if err == nil {\n				v.precommitted = true\n			}", New: "			v.vote(Precommit, blockHash, priority)\n			v.precommitted = true", Rule: "C02.S5", Construct: "precommitted"},
 	}
 }
